@@ -17,10 +17,9 @@ invariant `Inv` is preserved by every public operation (destroy included) and by
 scripts (`inv_preserved_partial`: only the `GetPulseTimeAux` sweep and acyclicity are missing).  What is proved only in part is named `…_partial`, and the
 full statement is kept in the comment in front of it.
 
-Open finding `C20-lost-invalidate` (called F25 in the harness tag; `corpus/C20/pn-inprogress-invalidate.ops`): the full
-"asked again before the next wait" statement is FALSE for the code as it is — a re-entrant
-`InvalidatePulseTime()` of a node whose own `GetPulseTimeAux` is in progress is lost.  The model mirrors
-the code, so no theorem here claims it.
+Finding `C20-lost-invalidate` (`corpus/C20/pn-regress-inprogress-invalidate.ops`) is repaired: `GetPulseTimeAux` makes a
+second pass when the node was invalidated during the first, and files a node that is invalid even then with aggregate
+time 0.  The model mirrors the repaired code; `lost_invalidate_reasked/_bounded/_live` state the repaired behaviour.
 -/
 
 set_option linter.unusedSimpArgs false
@@ -239,7 +238,8 @@ theorem fires_iff_due_partial (never : Nat) (f : Forest) (root n t : Nat) (hs : 
     ∀ a, Desc f root a → Desc f a n → (f a).agg ≤ t := by
   intro a ha han
   have hsa : Settled never f a :=
-    { agg_eq := fun p hp => hs.agg_eq p (desc_trans ha hp)
+    { agg_my := fun p hp => hs.agg_my p (desc_trans ha hp)
+      agg_fsa := fun p hp => hs.agg_fsa p (desc_trans ha hp)
       agg_le := fun p hp => hs.agg_le p (desc_trans ha hp)
       sorted := fun p hp => hs.sorted p (desc_trans ha hp)
       filed := fun p c hp hc => hs.filed p c (desc_trans ha hp) hc }
@@ -252,23 +252,21 @@ theorem fires_iff_due_partial (never : Nat) (f : Forest) (root n t : Nat) (hs : 
     requested time`.  PROVED: the reported time is at or before the root's new aggregate time, and — when the sweep
     leaves the tree settled — at or before the request of EVERY node below the root (no timer is ever slept
     through).  MISSING: (a) that the sweep always leaves the tree settled (true for undisturbed sweeps, checked by the
-    correspondence run and the direct oracle; false in the F25 situation), (b) the reverse inequality (the minimum
+    correspondence run and the direct oracle), (b) the reverse inequality (the minimum
     is attained; it can be undercut when a request is superseded within one sweep, because `min` is only lowered). -/
 theorem wakeup_is_min_partial (never d k : Nat) (w w' : World) (root now m : Nat)
     (h : managerGpt never d (k+1) w root now = some (w', m)) :
     m ≤ (w'.f root).agg ∧
     (Settled never w'.f root → ∀ n, Desc w'.f root n → m ≤ (w'.f n).myTime) := by
-  simp only [managerGpt, gptAux] at h
-  split at h
-  · cases h
-  · rename_i w1 h1
-    split at h
-    · cases h
-    · rename_i w2 mn2 h2
-      have hm := gptFinish_min never d w2 w' root mn2 m h
-      refine ⟨hm.2.1, fun hs n hn => ?_⟩
-      have := (settled_agg_le never w'.f root n hs hn).2
-      omega
+  simp only [managerGpt] at h
+  obtain ⟨w1, w2, m2, _, _, hr⟩ := gptAux_shape never d k w w' root now never m h
+  have hm : m ≤ (w'.f root).agg := by
+    rcases hr with ⟨_, hf⟩ | ⟨_, w3, w4, m4, _, _, hf⟩
+    · exact (gptFinish_min never d w2 w' root m2 m hf).2.1
+    · exact (gptFinish_min never d w4 w' root m4 m hf).2.1
+  refine ⟨hm, fun hs n hn => ?_⟩
+  have := (settled_agg_le never w'.f root n hs hn).2
+  omega
 
 /-! ## Asked again -/
 
@@ -276,14 +274,55 @@ theorem wakeup_is_min_partial (never d k : Nat) (w w' : World) (root now m : Nat
     and is asked again by the next `getPulseTime` on its root.  PROVED HERE: the sweep asks every node it visits that has
     no standing request — first thing, passing the time the node requested before — and it returns from a node only when
     that node's NEEDSRECALC list is empty.  MISSING: that every node without a standing request is *visited*, i.e. sits in
-    the NEEDSRECALC list of its parent and so do all its ancestors (the marking component of `Inv`).  For the code as it
-    is this is FALSE when a node is invalidated / re-attached while its own `GetPulseTimeAux` is in progress (finding F25). -/
+    the NEEDSRECALC list of its parent and so do all its ancestors (the marking component of `Inv`, proved for the public operations and the pulse sweep
+    in `inv_preserved_partial` / `needsrecalc_reaches_root`, not yet for the `GetPulseTimeAux` sweep). -/
 theorem reasked_partial (never d k : Nat) (w w' : World) (n now mn mn' : Nat)
     (h : gptAux never d (k+1) w n now mn = some (w', mn')) :
     ((w.f n).valid = false → ∃ ret l, w'.log = w.log ++ [.G n now (w.f n).myTime ret] ++ l) ∧
     (∀ w1 w2 m1 m2, gptLoop never d k w1 n now m1 = some (w2, m2) → (w2.f n).recalc = []) :=
   ⟨fun hv => gptAux_asks never d k w w' n now mn mn' hv h,
    fun w1 w2 m1 m2 hl => gptLoop_empties never d k w1 w2 n now m1 m2 hl⟩
+
+/-! ## The repaired `GetPulseTimeAux` (finding `C20-lost-invalidate`, fixed)
+
+Before the repair an `InvalidatePulseTime()` (or detach + re-attach) that reached a node while its own `GetPulseTimeAux` was
+in progress was lost: the node was filed with `_myScheduledTimeValid == false`, never asked again, never fired.  The three
+theorems below are the repaired behaviour; `never_early` / `fires_with_asked_time` above hold for the repaired model as
+they did before (every `Pulse` callback still needs a standing request, and a standing request is still the node's latest
+answer). -/
+
+/-- not lost: if the request does not stand after the first pass (own callback + needy children), the node is asked again
+    in the same `GetPulseTimeAux` call, and is told the answer it gave the first time -/
+theorem lost_invalidate_reasked (never d k : Nat) (w w' : World) (n now mn m : Nat)
+    (h : gptAux never d (k+1) w n now mn = some (w', m)) (w1 w2 : World) (m2 : Nat)
+    (h1 : (if (w.f n).valid then some w else callG never d w n now) = some w1)
+    (h2 : gptLoop never d k w1 n now mn = some (w2, m2)) (hv : (w2.f n).valid = false) :
+    ∃ ret l, w'.log = w2.log ++ [.G n now (w2.f n).myTime ret] ++ l :=
+  gptAux_reasks_in_progress never d k w w' n now mn m h w1 w2 m2 h1 h2 hv
+
+/-- bounded: one `GetPulseTimeAux` call consists of one pass, or — exactly when the request does not stand after the first
+    pass — two; a node that invalidates itself on every `GetPulseTime` call is asked twice per call, not for ever -/
+theorem lost_invalidate_bounded (never d k : Nat) (w w' : World) (n now mn m : Nat)
+    (h : gptAux never d (k+1) w n now mn = some (w', m)) :
+    ∃ w1 w2 m2, (if (w.f n).valid then some w else callG never d w n now) = some w1 ∧
+      gptLoop never d k w1 n now mn = some (w2, m2) ∧
+      (((w2.f n).valid = true ∧ gptFinish never d w2 n m2 = some (w', m)) ∨
+       ((w2.f n).valid = false ∧ ∃ w3 w4 m4, callG never d w2 n now = some w3 ∧
+          gptLoop never d k w3 n now m2 = some (w4, m4) ∧ gptFinish never d w4 n m4 = some (w', m))) :=
+  gptAux_shape never d k w w' n now mn m h
+
+/-- live: when `GetPulseTimeAux` returns, the node's request stands, or — it was invalidated again during the second pass —
+    the node's aggregate time and the reported wake-up time are 0: the event loop does not wait (`0 ≤ now`), the next
+    `CallPulseAux`/`PulseAux` reaches the node (`now ≥ 0` is the loop condition) without calling `Pulse` (`never_early`: the
+    request does not stand), and `PulseAux` flags every node it visits NEEDSRECALC, so that the next sweep asks it
+    (`reasked_partial`) -/
+theorem lost_invalidate_live (never d k : Nat) (w w' : World) (n now mn m : Nat)
+    (h : gptAux never d (k+1) w n now mn = some (w', m)) :
+    ((w'.f n).valid = true ∨ ((w'.f n).agg = 0 ∧ m = 0)) ∧
+    (∀ (k2 : Nat) (v v' : World) (now2 q : Nat), pulseAux never d (k2+1) v n now2 = some v' →
+        (v'.f n).parent = some q → (v'.f n).cur = some .recalc) :=
+  ⟨gptAux_live never d k w w' n now mn m h,
+   fun k2 v v' now2 q hp hq => pulseAux_marks never d k2 v v' n now2 hp q hq⟩
 
 /-! ## Non-vacuity: a two-node history in which the child fires exactly on time -/
 
@@ -292,5 +331,16 @@ def sampleOps : List Op :=
 
 example : (runOps 1000 8 40 (World.init 1000) sampleOps).map (·.log) =
     some [.G 0 10 1000 1000, .G 1 10 1000 50, .P 1 50 50] := by decide +kernel
+
+/-- non-vacuity of the repair theorems: node 1 invalidates itself inside its own `GetPulseTime` and is asked again at once;
+    invalidating itself twice, it is asked twice in the first sweep and once more in the next cycle -/
+example : (runOps 1000 8 40 (World.init 1000)
+      [.attach 1 0, .setReq 1 50, .script true 1 [.inval 1 false], .gpt 0 10]).map (·.log) =
+    some [.G 0 10 1000 1000, .G 1 10 1000 50, .G 1 10 50 50] := by decide +kernel
+
+example : (runOps 1000 8 40 (World.init 1000)
+      [.attach 1 0, .setReq 1 50, .script true 1 [.inval 1 false], .script true 1 [.inval 1 false],
+       .gpt 0 10, .pulse 0 10, .gpt 0 10]).map (fun w => (w.log, (w.f 1).valid)) =
+    some ([.G 0 10 1000 1000, .G 1 10 1000 50, .G 1 10 50 50, .G 1 10 50 50], true) := by decide +kernel
 
 end Muscle.Props.C20
